@@ -25,10 +25,14 @@ const (
 	OpSepBy
 	OpSepBy1
 	OpNT
+	// extended operators, used only by the C07/C12 templates (no reference semantics):
+	// text.RightTrim / text.LeftTrim with whitespace mode C (0..3)
+	OpRTrim
+	OpLTrim
 )
 
 var opNames = map[Op]string{OpSeqOf: "Seq", OpSeqTry: "SeqTry", OpSeqFirstOrAll: "SeqFOA", OpAny: "Any", OpChoice: "Choice",
-	OpOpt: "Opt", OpMany: "Many", OpMany1: "Many1", OpSepBy: "SepBy", OpSepBy1: "SepBy1"}
+	OpRTrim: "RTrim", OpLTrim: "LTrim", OpOpt: "Opt", OpMany: "Many", OpMany1: "Many1", OpSepBy: "SepBy", OpSepBy1: "SepBy1"}
 
 // Expr is a grammar expression. ID is unique within a grammar.
 type Expr struct {
@@ -84,6 +88,8 @@ func (e *Expr) String() string {
 		return "ε"
 	case OpNT:
 		return fmt.Sprintf("N%d", e.NT)
+	case OpRTrim, OpLTrim:
+		return fmt.Sprintf("%s(%s,ws%d)", opNames[e.Op], e.Kids[0], e.C)
 	}
 	var ks []string
 	for _, k := range e.Kids {
@@ -199,6 +205,8 @@ func exprNullable(e *Expr, nl []bool) bool {
 		return false
 	case OpEmpty, OpOpt, OpMany, OpSepBy:
 		return true
+	case OpRTrim, OpLTrim:
+		return exprNullable(e.Kids[0], nl)
 	case OpNT:
 		return nl[e.NT]
 	case OpSeqOf:
